@@ -114,6 +114,8 @@ type storageWrap struct {
 	// mute: sends are swallowed (replicas replaying a log); filter: the node is shown only these messages
 	mute   bool
 	filter func(storage.Message) bool
+	// rewrite: the node is shown every message in this form (a log whose stamps are all moved back, C08)
+	rewrite func(storage.Message) storage.Message
 	// readHook is told about GetMessages / IgnoreMessages
 	readHook func(op string)
 }
@@ -134,12 +136,15 @@ func (s *storageWrap) GetMessages(o uint64) ([]storage.Message, error) {
 		s.readHook("getmessages")
 	}
 	ms, err := s.inner.GetMessages(o)
-	if err != nil || s.filter == nil {
+	if err != nil || (s.filter == nil && s.rewrite == nil) {
 		return ms, err
 	}
 	var out []storage.Message
 	for _, m := range ms {
-		if s.filter(m) {
+		if s.filter == nil || s.filter(m) {
+			if s.rewrite != nil {
+				m = s.rewrite(m)
+			}
 			out = append(out, m)
 		}
 	}
